@@ -18,7 +18,8 @@ sys.path.insert(0, os.path.dirname(HERE))
 from oracle import specsgz as S, segygen as G      # noqa: E402
 
 QUICK = [((3, 5, 6), 2, False), ((4, 4, 6), 2, False), ((8, 5, 6), 3, False), ((63, 4, 6), 2, False), ((64, 8, 6), 2, False), ((65, 3, 6), 3, False),
-         ((5, 68, 6), 2, False), ((8, 8, 1030), 2, False), ((8, 128, 6), 2, False), ((6, 7, 9), 2, True), ((12, 5, 6), 0, False)]
+         ((5, 68, 6), 2, False), ((8, 8, 1030), 2, False), ((8, 128, 6), 2, False), ((6, 7, 9), 2, True), ((12, 5, 6), 0, False),
+         ((4, 68, 1030), 2, False), ((5, 64, 6), 2, False)]
 THOROUGH = QUICK + [((68, 68, 6), 3, False), ((129, 5, 6), 2, False), ((5, 129, 6), 2, False), ((128, 64, 6), 2, False), ((64, 64, 5), 3, False),
                     ((16, 16, 2050), 2, False), ((66, 9, 6), 2, True), ((7, 64, 6), 0, False), ((4, 128, 1025), 3, False)]
 
